@@ -182,6 +182,12 @@ pub fn type_table() -> Vec<TypeCase> {
                   svc(4, &[203, 0, 113, 1, 192, 0, 2, 7, 198, 51, 100, 3]), svc(9, &cat(&[u16be(65535), u16be(256), u16be(1), u16be(25497)]))]),
             // unknown keys whose number contains the digit 9
             cat(&[u16be(1), plain.clone(), svc(129, b"abc"), svc(65289, b"x")]),
+            // dohpath (RFC 9461), ohttp (RFC 9540), and all known keys together
+            cat(&[u16be(1), plain.clone(), svc(7, b"/dns-query{?dns}")]),
+            cat(&[u16be(1), plain.clone(), svc(8, &[])]),
+            cat(&[u16be(3), plain.clone(), svc(0, &cat(&[u16be(1), u16be(7)])), svc(1, &cat(&[cs(b"h2"), cs(b"h3")])), svc(3, &u16be(443)),
+                  svc(4, &[192, 0, 2, 1]), svc(5, &bytes(7, 2)), svc(6, &[0x20, 1, 0x0d, 0xb8, 0, 0, 0, 0, 0, 0, 0, 0, 0, 0, 0, 2]),
+                  svc(7, b"/q{?dns}"), svc(8, &[]), svc(9, &cat(&[u16be(29), u16be(23)]))]),
         ] });
     }
     // unknown type: RFC 3597 generic form
